@@ -263,3 +263,23 @@ package keeper
 //@        stWithdrawable(ctx, duStaker(params), duAsset(params)) == old(stWithdrawable(ctx, duStaker(params), duAsset(params)))
 //@   ensures[C02.uf.amount] err == nil ==> val(duRec(ctx, params).Amount) <= old(pT(ctx, params.OperatorAddress, duAsset(params))) &&
 //@        delShare(ctx, duStaker(params), duAsset(params), accstr(params.OperatorAddress)) <= old(delShare(ctx, duStaker(params), duAsset(params), accstr(params.OperatorAddress)))
+
+// ---------------------------------------------------------------------------------------------
+// C03/C16: hold counts move by exactly one; refused at the bounds without any effect
+
+//@ func (*Keeper).GetUndelegationHoldCount
+//@   ensures[C03.ghc.spec] result == holdCount(ctx, recordKey)
+
+//@ func (Keeper).IncrementUndelegationHoldCount
+//@   requires recordKey != nil
+//@   modifies get(ctx, "delegation", holdKey(recordKey))
+//@   ensures[C03.ihc.spec]   (err != nil) <==> old(holdCount(ctx, recordKey)) == 18446744073709551615
+//@   ensures[C03.ihc.inc]    err == nil ==> holdCount(ctx, recordKey) == old(holdCount(ctx, recordKey)) + 1
+//@   ensures[C09.ihc.atomic] err != nil ==> state(ctx) == old(state(ctx))
+
+//@ func (Keeper).DecrementUndelegationHoldCount
+//@   requires recordKey != nil
+//@   modifies get(ctx, "delegation", holdKey(recordKey))
+//@   ensures[C03.dhc.spec]   (err != nil) <==> old(holdCount(ctx, recordKey)) == 0
+//@   ensures[C03.dhc.dec]    err == nil ==> holdCount(ctx, recordKey) == old(holdCount(ctx, recordKey)) - 1 && holdCount(ctx, recordKey) >= 0
+//@   ensures[C09.dhc.atomic] err != nil ==> state(ctx) == old(state(ctx))
